@@ -12,6 +12,7 @@ Others == {"-", "z", "upper"}
 (* the judged points: (cell, shape, schema, value) with a determined wire and a determined decoded value *)
 Points(cells) == {pt \in [c : cells, sh : {x \in Shapes : InScope(x)}] : TRUE}
 SV(sh) == {sv \in [s : sh.schemas, v : sh.vals] : Typed(sv.s, sv.v)}
+SV0 == UNION {[s : sh.schemas, v : sh.vals] : sh \in {x \in Shapes : InScope(x)}}          \* typed or not
 
 PathTrip(order, closed, c, s, v, m) ==
    LET r == DecodePath(order, closed, c, P, s, PathCs(c, P, v, Enc(c, v, m))) IN r.ok /\ ~IsAbsent(r) /\ Eq(r.val, v)
@@ -32,20 +33,35 @@ AbsentFailures(closed) ==
       \E s \in x.pt.sh.schemas : /\ AnyDefined(x.pt.c, x.pt.sh) /\ Attributable(x.pt.c, x.pt.sh, s, SomeVal(x.pt.c, x.pt.sh), x.ot)
                                  /\ ~FormAbsent(closed, x.pt.c, s, x.ot)}
 
-(* 1. the decoder that splits first and unescapes the members is an inverse of Wire: every path cell, every form cell  *)
-(*    next to every other query content, both encoding modes; an absent parameter is absent                            *)
-ASSUME PathAll("split_unescape", "drop")
-ASSUME FormFailures("split_unescape", "drop") = {}
-ASSUME AbsentFailures("drop") = {}
+(* the values a closed schema (additionalProperties: false) must get to see whole: they carry a property it does not    *)
+(* declare.  The decoder has no type for that property, but it must not lose it: the decoded object keeps every key,     *)
+(* so that validation can reject the value (the statement: accepted exactly when the value satisfies the schema).         *)
+ClosedPoints(cells) == {x \in [c : cells, sv : SV0] : Has(x.sv.s, "apFalse") /\ UndeclaredKeys(x.sv.s, x.sv.v) # {} /\ Defined(x.c, x.sv.v)}
+KeepsKeys(r, v) == r.ok /\ ~IsAbsent(r) /\ \A i \in DOMAIN v.k : HasKey(r.val, v.k[i])
+PathKeeps(closed, x) == KeepsKeys(DecodePath("split_unescape", closed, x.c, P, x.sv.s, PathCs(x.c, P, x.sv.v, Enc(x.c, x.sv.v, "min"))), x.sv.v)
+FormKeeps(closed, x) == KeepsKeys(DecodeForm("split_unescape", closed, x.c, P, x.sv.s, FormReq(x.c, P, x.sv.v, "min", "-")), x.sv.v)
+
+(* 1. the design of the code as it is since fb9cd6e, with the split-then-unescape order: an inverse of Wire on every path   *)
+(*    cell and every form cell next to every other query content, both encoding modes; an absent parameter is absent;       *)
+(*    a value with an undeclared property reaches a closed schema whole (path cells, non-exploded form)                     *)
+ASSUME PathAll("split_unescape", "keep_own")
+ASSUME FormFailures("split_unescape", "keep_own") = {}
+ASSUME AbsentFailures("keep_own") = {}
+ASSUME ClosedPoints(PathCells) # {} /\ \A x \in ClosedPoints(PathCells) : PathKeeps("keep_own", x)
+ASSUME \A x \in ClosedPoints({c \in FormCells : ~c.explode}) : FormKeeps("keep_own", x)
 (* 2. the universe tells the orders apart: unescaping before splitting is NOT an inverse, in every path cell           *)
 ASSUME \A c \in PathCells : \E sh \in Shapes : InScope(sh) /\ \E sv \in SV(sh) :
-          Defined(c, sv.v) /\ ~PathTrip("unescape_split", "drop", c, sv.s, sv.v, "min")
+          Defined(c, sv.v) /\ ~PathTrip("unescape_split", "keep_own", c, sv.s, sv.v, "min")
 (* 3. in the query that order is the one built today (url.Values is decoded text): it fails exactly on non-exploded     *)
-(*    values that hold an escaped comma -- the class of finding F-C05-4, nothing else                                   *)
-ASSUME FormFailures("unescape_split", "drop") # {}
-ASSUME \A x \in FormFailures("unescape_split", "drop") : ~x.pt.c.explode /\ x.pt.sh.id \in {"arrstr", "obj", "objk"}
-(* 4. keeping undeclared properties under additionalProperties: false is harmless where the text names the object's      *)
-(*    properties (path) and wrong where the exploded object shares the query with other parameters                       *)
+(*    values that hold an escaped comma -- the class of the open finding F-C05-4, nothing else                          *)
+ASSUME FormFailures("unescape_split", "keep_own") # {}
+ASSUME \A x \in FormFailures("unescape_split", "keep_own") : ~x.pt.c.explode /\ x.pt.sh.id \in {"arrstr", "obj", "objk"}
+(* 4. the two designs the code has left behind or could fall back to.  "drop" (before fb9cd6e, F-C05-5) is an inverse on    *)
+(*    typed values but loses the undeclared property in every cell; "keep" without the exploded form object confining      *)
+(*    itself to its own keys (seeded change C05-l) is fine in the path and wrong exactly where the exploded object shares   *)
+(*    the query with other parameters                                                                                     *)
+ASSUME PathAll("split_unescape", "drop") /\ FormFailures("split_unescape", "drop") = {}
+ASSUME \A x \in ClosedPoints(PathCells) : ~PathKeeps("drop", x)
 ASSUME PathAll("split_unescape", "keep")
 ASSUME FormFailures("split_unescape", "keep") # {} /\ \A x \in FormFailures("split_unescape", "keep") : x.pt.c.explode /\ x.ot # "-"
 ASSUME AbsentFailures("keep") # {} /\ \A x \in AbsentFailures("keep") : x.pt.c.explode /\ x.ot # "-"
